@@ -35,7 +35,7 @@ func (h *H) ProjectCatalog() M {
 			x := item.(*structs.ServiceNode)
 			ups := []M{}
 			for _, u := range x.ServiceProxy.Upstreams {
-				ups = append(ups, M{"name": u.DestinationName, "peer": u.DestinationPeer})
+				ups = append(ups, M{"name": u.DestinationName, "peer": u.DestinationPeer, "pq": u.DestinationType == structs.UpstreamDestTypePreparedQuery})
 			}
 			vip := ""
 			if a, ok := x.ServiceTaggedAddresses[structs.TaggedAddressVirtualIP]; ok {
